@@ -193,7 +193,7 @@ func (p *Peer) Serve(c io.ReadWriteCloser) int {
 				}
 				continue
 			case FaultOversize:
-				c.Write([]byte{0x7f, 0xff, 0xff, 0xff, 1, 2, 3})
+				c.Write([]byte{0x7f, 0xff, 0xff, 0xff}) // the reader gives up after the prefix
 				c.Close()
 				return p.reqIndex
 			case FaultCloseBefore:
